@@ -69,6 +69,14 @@ def ceval(e, env):
             return a * b
         if op == "Div":
             return a // b if b else None
+        if op == "Rem":
+            return a % b if b else None
+        if op == "Shr":
+            return a >> b if 0 <= b < 128 else None
+        if op == "Shl":
+            return a << b if 0 <= b < 128 else None
+        if op == "BitAnd":
+            return a & b
     if k == "cast":
         return ceval(e[3], env)
     return None
